@@ -1,5 +1,5 @@
 (* Statement pins for the codec area. *)
-From FlacCodec Require Import Wf Spec Stream Progress EncChoice Damage Props_codec.
+From FlacCodec Require Import Wf Spec Stream Progress EncChoice Damage Prefix Interrupted Props_codec.
 From FlacBase Require Import Crc.
 Open Scope N_scope.
 Check (C17_parse_inverts_write : forall si f bytes rest,
@@ -24,3 +24,13 @@ Check (C05_flipped_frame_rejected : forall si chk bytes h c rest i k h' c' rest'
   Forall byte bytes -> dec_frame si chk bytes = Ok (h, c, rest) ->
   (i < length bytes - length rest)%nat -> k < 8 ->
   dec_frame si chk (flip16 bytes i k) = Ok (h', c', rest') -> length rest' <> length rest).
+Check (C05_truncated_frame_is_error : forall si chk bytes h c rest m,
+  dec_frame si chk bytes = Ok (h, c, rest) -> (m < length bytes - length rest)%nat ->
+  dec_frame si chk (firstn m bytes) = Err EEof).
+Check (C14_interrupted_stream : forall si fs allb g gb m fuel cur acc,
+  Forall (frame_ok si) fs -> frames_bytes fs = Some allb ->
+  frame_ok si g -> write_frame g = Some gb -> (m < length gb)%nat ->
+  (si_total si = 0 \/ cur + total_samples fs + h_bs (f_hdr g) <= si_total si) ->
+  (length allb + m < fuel)%nat ->
+  let '(out, e) := dec_frames fuel si cur (allb ++ firstn m gb) acc in
+  out = rev acc ++ map (fun f => interleave_frame (sem_frame f)) fs /\ is_end_panic e = false).
